@@ -715,3 +715,48 @@ def b8_two_sided_acceptance(ctx) -> None:
                               "the side without a rule is never given one and the extracted tree has a leaf that is no atom")
     if n < 2:
         ctx.floor("B8", 99)
+
+
+# ------------------------------------------------------------------ B9 matcher state is keyed by pairs
+def b9_state_keyed_by_pairs(ctx) -> None:
+    """Matching is a relation between the nodes of two specifications, not a function: one node
+    may be matched with several nodes of the other side (a class reached twice, equivalent
+    classes).  Whatever the matcher remembers between calls is therefore keyed by the *pair*;
+    a table keyed by a node of one side only assumes a function and makes the test depend on
+    which specification comes first."""
+    P = ctx.P
+    cls = P.need_class(ISO)
+    attr = _init_attr_sides(P, ISO, 1)
+    n = 0
+    for m in cls.methods.values():
+        if m.name == "__init__":
+            continue
+        f = m.node
+        ps = D.param_names(f)
+        seeds: Dict[str, int] = {}
+        # node names: whatever indexes the rules table of a side
+        for x in walk_local(f):
+            if isinstance(x, ast.Subscript) and is_self_attr(x.value) and x.value.attr in attr and isinstance(x.slice, ast.Name):
+                seeds[x.slice.id] = attr[x.value.attr]
+        # parameters in (side 1, side 2) pairs as the matcher's methods are written: keep only what data flow gives
+        keys = []
+        for x in walk_local(f):
+            t, v = PT.assign_value(x)
+            if isinstance(t, ast.Subscript) and is_self_attr(t.value) and v is not None:
+                keys.append((x, t.value.attr, t.slice))
+            if isinstance(x, ast.Call) and isinstance(x.func, ast.Attribute) and x.func.attr in ("add", "setdefault") and is_self_attr(x.func.value) and x.args:
+                keys.append((x, x.func.value.attr, x.args[0]))
+        for node, a, k in keys:
+            if a in attr:
+                continue
+            sides = _side_of(f, k, seeds, {})
+            if not sides:
+                continue
+            n += 1
+            if sides == {1, 2}:
+                ctx.ok("B9", f"{m.qualname}: self.{a} is keyed by a pair (node of spec 1, node of spec 2)")
+            else:
+                ctx.violation("B9", node, f"{m.qualname}: self.{a} is keyed by `{norm(k)}`, a node of specification {sorted(sides)[0]} only: the matcher's memory must be keyed by pairs "
+                              "(one node can be matched with several of the other side; a one-sided table also makes the test asymmetric)")
+    if n < 2:
+        ctx.floor("B9", 99)
